@@ -3,6 +3,7 @@ import SpsdkVerif.Model.Fresh
 import SpsdkVerif.Generated.SecretSites
 import SpsdkVerif.Model.FreshObj
 import SpsdkVerif.Model.FreshFile
+import SpsdkVerif.Model.FreshLoop
 import SpsdkVerif.Generated.SecretState
 open SpsdkVerif Driver
 open SpsdkVerif.Fresh
@@ -123,7 +124,30 @@ def renderFRun (g : Guard) (init : Option Nat) (h : List FStep) : String :=
       | none => (s', seen, out ++ ["?"])) (s0, [], [])
   if out.isEmpty then "_" else "/".intercalate out
 
+/-
+  loops                   -> `idx|kind|scope|var|drawLoc|loopLoc|inside;...`   Generated.loopUses
+  crun 3 2,1              -> history of calls serving 2 and 1 artifacts through loop row 3: sharing ranks per call `0,0/1`
+-/
+def loopsLine : String :=
+  let rows := (Generated.loopUses.zipIdx).map fun (r, i) =>
+    s!"{i}|{kindStr r.kind}|{r.scope}|{r.var}|{r.drawLoc}|{r.loopLoc}|{if r.inside then 1 else 0}"
+  if rows.isEmpty then "-" else ";".intercalate rows
+
+def renderCRun (inside : Bool) (h : List Nat) : String :=
+  let (_, _, out) := h.foldl (fun (acc : Nat × List Token × List String) n =>
+    let (next, seen, out) := acc
+    let r := serve inside n next
+    let (seen', labs) := r.1.foldl (fun (a : List Token × List String) t =>
+      let (l, s') := labelOf a.1 t; (s', a.2 ++ [toString l])) (seen, [])
+    (r.2, seen', out ++ [if labs.isEmpty then "_" else ",".intercalate labs])) (0, [], [])
+  if out.isEmpty then "_" else "/".intercalate out
+
 def step : List String → String
+  | ["loops"] => loopsLine
+  | ["crun", i, h] =>
+    match i.toNat?.bind (Generated.loopUses[·]?), (h.splitOn ",").mapM (·.toNat?) with
+    | some r, some hh => renderCRun r.inside hh
+    | _, _ => "bad-op"
   | ["sources"] => sourcesLine
   | ["frun", i, init, h] =>
     match i.toNat?.bind (Generated.secretSources[·]?), (h.splitOn "/").mapM parseFStep with
